@@ -69,6 +69,19 @@ add("C31", "model_checking",
     K_NOTE + "; one harness per concrete length pair (symbolic Vec lengths exhaust CBMC), contents fully symbolic; minimal_token_difference outside the claim",
     "SAT-based bounded model checking of compiled Rust (Kani), universally quantified competitor script", "DESIGN.md §4 C31")
 
+add("C16", TV,
+    "For every scanner configuration of a stated family (auto newline x auto whitespace x allow_unmatched x comments x terminal sets) the real generate_build_information is called natively and z3's regex theory decides over ALL non-empty strings whether some input has no terminal of the mode matching any non-empty prefix (it would become a silently skipped gap). Without allow_unmatched this must be unsatisfiable; with it the mode must contain no catch-all. Witnesses are replayed on the natively built generated parser (sentence + witness must be rejected).",
+    "trusted: regex->z3 translator (same as C15), z3; characters above U+2FFFF are outside z3's character sort; the step 'Error token => parse fails' is C01's foreign-token case",
+    "regular-language coverage queries in z3's regex theory over the terminal lists emitted by the real generator; native replay on the generated parser", "DESIGN.md §4 C16")
+add("C30", "model_checking",
+    "Bounded model checking (Kani/CBMC) of the real parol-ls pos_to_offset / extract_text_range on a committed list of text templates (no trailing newline, LF, CRLF, bare CR, empty lines, 2- and 3-byte characters) for every line and a symbolic character index: offset <= len, on a char boundary, equal to an independent byte-scan reference (clamping past line/text ends), ranges never panic. Kernel-level partial claim: whole LSP requests are outside.",
+    K_NOTE + "; texts and lines concrete per harness, character indices symbolic; counterexamples replayed natively with kani playback",
+    "SAT-based bounded model checking of compiled Rust (Kani) in the parol-ls binary crate", "DESIGN.md §4 C30")
+add("C34", TV,
+    "z3 decides for ALL token strings up to N over the shared PAR token vocabulary (41 terminals) that parol.par and parol_ls.par - the sources both parsers are generated from - derive the same strings; a witness is rendered to text and replayed on parol's real grammar parser and on the parser generated from parol_ls.par with the language server's generator options.",
+    G_NOTE + "; terminals identified by expanded pattern; scanner-state dependent tokenisation differences outside the claim",
+    "bounded CFG language equivalence in SMT (z3) between the two grammar sources; native replay on both parsers", "DESIGN.md §4 C34")
+
 PENDING = {}
 
 def main():
